@@ -22,8 +22,10 @@ Qed.
 
 Lemma exec_safe_ok : forall sec loc s, safe_section sec = true -> exists r, exec_section sec loc s = Ok r.
 Proof.
-  intros sec loc s H. destruct sec; cbn [safe_section] in H; try discriminate; cbn [exec_section]; eauto.
-  destruct (sm_inc_ensure_ok (getm s m) k) as [mp E]. rewrite E. eauto.
+  induction sec as [m k|m k|m k|m k|m|m|a IHa b IHb]; intros loc s H; cbn [safe_section] in H; try discriminate; cbn [exec_section]; eauto.
+  - destruct (sm_inc_ensure_ok (getm s m) k) as [mp E]. rewrite E. eauto.
+  - apply andb_true_iff in H. destruct H as [Ha Hb].
+    destruct (IHa loc s Ha) as [[s' l'] E]. rewrite E. apply IHb. exact Hb.
 Qed.
 
 Lemma step_at_safe_ok : forall i ts s, forallb safe_thread ts = true ->
@@ -88,6 +90,9 @@ Proof.
   - induction regs as [|x r IH]; cbn [flat_map]; [reflexivity|]. apply forallb_app_true; [apply addreg_prog_safe|exact IH].
   - apply repeat_prog_safe. reflexivity.
   - apply repeat_prog_safe. reflexivity.
+  - apply repeat_prog_safe. reflexivity.
+  - apply repeat_prog_safe. reflexivity.
+  - apply repeat_prog_safe. reflexivity.
 Qed.
 
 Lemma threads_of_safe : forall ks, forallb safe_thread (map thread_of ks) = true.
@@ -109,49 +114,3 @@ Proof.
   rewrite E. discriminate.
 Qed.
 
-(* ---- without an epoch change the split variant is harmless: counters are only ever added.  The
-   invariant: a thread that remembers "found" or that has passed its create region still finds the key. *)
-Definition no_swap (sec : section) : bool := match sec with SSwap _ => false | _ => true end.
-
-Lemma sm_get_bump_some : forall m k k', sm_get m k' <> None -> sm_get (sm_bump m k) k' <> None.
-Proof.
-  induction m as [|[a v] r IH]; intros k k' H; cbn [sm_bump sm_get] in *; [exact H|].
-  destruct (N.eqb a k) eqn:E; cbn [sm_get]; destruct (N.eqb a k') eqn:E'; try discriminate; auto.
-Qed.
-
-Lemma sm_get_create_some : forall m k k', sm_get m k' <> None -> sm_get (sm_create m k) k' <> None.
-Proof. intros m k k' H. unfold sm_create. cbn [sm_get]. destruct (N.eqb k k'); [discriminate|exact H]. Qed.
-
-Definition present (s : sstate) (m : mapid) (k : N) : Prop := sm_get (getm s m) k <> None.
-
-Lemma getm_setm_same : forall s m v, getm (setm s m v) m = v.
-Proof. destruct m; reflexivity. Qed.
-
-Lemma getm_setm_other : forall s m m' v, m <> m' -> getm (setm s m v) m' = getm s m'.
-Proof. destruct m, m'; intros; try reflexivity; congruence. Qed.
-
-Lemma mapid_eq_dec : forall a b : mapid, {a = b} + {a <> b}.
-Proof. decide equality. Qed.
-
-(* presence survives every region that is not a swap *)
-Lemma present_preserved : forall sec loc s s' l' m k,
-  no_swap sec = true -> exec_section sec loc s = Ok (s', l') -> present s m k -> present s' m k.
-Proof.
-  intros sec loc s s' l' m k Hn E P. unfold present in *.
-  destruct sec as [m0 k0|m0 k0|m0 k0|m0 k0|m0|m0]; cbn [no_swap] in Hn; try discriminate; cbn [exec_section] in E.
-  - unfold sm_inc in E. destruct (sm_get (sm_ensure (getm s m0) k0) k0); inversion E; subst.
-    destruct (mapid_eq_dec m0 m) as [->|Hd].
-    + rewrite getm_setm_same. apply sm_get_bump_some. unfold sm_ensure. destruct (sm_get (getm s m) k0); [exact P|].
-      apply sm_get_create_some, P.
-    + rewrite getm_setm_other by exact Hd. exact P.
-  - inversion E; subst. exact P.
-  - destruct loc; inversion E; subst; [exact P|].
-    destruct (mapid_eq_dec m0 m) as [->|Hd].
-    + rewrite getm_setm_same. apply sm_get_create_some, P.
-    + rewrite getm_setm_other by exact Hd. exact P.
-  - unfold sm_inc in E. destruct (sm_get (getm s m0) k0); inversion E; subst.
-    destruct (mapid_eq_dec m0 m) as [->|Hd].
-    + rewrite getm_setm_same. apply sm_get_bump_some, P.
-    + rewrite getm_setm_other by exact Hd. exact P.
-  - inversion E; subst. exact P.
-Qed.
